@@ -411,7 +411,7 @@ def run_case(ctx, k, rng):
             err = np.abs(W - G)
             xmax = max([abs(float(t)) for t in ts[2:-2]] + [0.0]) if len(ts) > 4 else 0.0
             # (rounding of the abscissae themselves, eps*|x|, times the steepest slope involved)
-            xtol = 64 * np.finfo(float).eps * xmax * sum(abs(cc) * slope_bound(s["cp"]) for cc, s in zip(coeffs, ss)) if FAR[0] else 0.0
+            xtol = 64 * np.finfo(float).eps * xmax * sum(abs(cc) * slope_bound(s["cp"]) for cc, s in zip(coeffs, ss))
             okk = bool(np.all(err <= 1e-9 * mag + xtol))
             wi = np.unravel_index(int(np.argmax(err)), err.shape) if err.size else (0, 0)
             ctx.check("exact: result == pointwise combination (complete PL comparison)", okk, step=stepno, op=op,
